@@ -1239,6 +1239,7 @@ type c14ev struct {
 	retag  string // T
 	conf   bool   // E: confirm the model is told
 	tun    bool   // A: the ACT's tunnel field; T: the trigger announces a real tunnel port (set up by the harness)
+	noconn bool   // T with tun: the server listens and the relay offers its own port, but the client does not connect (in-band fallback)
 }
 
 func (e c14ev) arg() string {
@@ -1623,7 +1624,12 @@ func c14runSeq(evs []c14ev) c14seqResult {
 			g.srvW.Write(data)
 			var seen []byte
 			f, seen = next(g.atCli, e, st == 1, false)
-			if e.tun && f == "r" && !tun.connect(seen, svrPort) {
+			if e.tun && e.noconn {
+				if f == "r" && c14portRe.FindSubmatch(seen) == nil {
+					res.note = "relay-did-not-offer-a-port"
+					return res
+				}
+			} else if e.tun && f == "r" && !tun.connect(seen, svrPort) {
 				res.note = "tunnel-not-established"
 				return res
 			}
@@ -1783,6 +1789,12 @@ func (c *ctx) c14sequences() {
 				t = tunnelTransfer(k)
 			} else {
 				t = c14genTransfer(c.rng, k, false)
+				if len(j.trs) > 0 && c.rng.Intn(2) == 0 {
+					// a tunnel is offered again, but the client cannot connect this time: it falls back in-band
+					t.evs[0].data = t.evs[0].data[bytes.Index(t.evs[0].data, []byte("\x1b7\x07")):]
+					t.evs[0].tun, t.evs[0].noconn = true, true
+					c.count("seq:inband-fallback-after-offer")
+				}
 			}
 			j.trs = append(j.trs, t)
 			j.evs = append(j.evs, t.evs...)
